@@ -3,6 +3,7 @@ package main
 // C10: solving and proving are independent of scheduling and of concurrent use.
 
 import (
+	"runtime"
 	"bytes"
 	"fmt"
 	"math/big"
@@ -154,6 +155,18 @@ func (c *sparseHintCircuit) Define(api frontend.API) error {
 	return nil
 }
 
+type batchSquares struct {
+	X []frontend.Variable
+	Y []frontend.Variable `gnark:",public"`
+}
+
+func (c *batchSquares) Define(api frontend.API) error {
+	for i := range c.X {
+		api.AssertIsEqual(api.Mul(c.X[i], c.X[i]), c.Y[i])
+	}
+	return nil
+}
+
 type c10Desc struct {
 	Scenario string `json:"scenario"`
 	Detail   string `json:"detail"`
@@ -258,6 +271,42 @@ func runC10(args []string) int {
 			rep.Eval(fmt.Sprintf("history|%s|%d", t, k), true)
 			if got.Class != b.want.Class || obsEqual(got, b.want) != "" || obsEqual(got, again) != "" {
 				rep.Fail("c10:history-dependent:"+t.String(), "a Solve after another Solve differs from a fresh Solve", hd)
+			}
+		}
+	}
+	// ---------------- (6) more tasks than cores on a very wide level, witness violating every row: Solve must return the error
+	// (every worker stops at its first failing chunk; the remaining chunks must still be drained)
+	for _, r1 := range []bool{true, false} {
+		t := Target{"bn254", q, r1}
+		const nb = 3000
+		ccs, cerr := compileTarget(t, &batchSquares{X: make([]frontend.Variable, nb), Y: make([]frontend.Variable, nb)})
+		if cerr != "" {
+			rep.Fail("harness:compile", cerr, t.String())
+			continue
+		}
+		for _, valid := range []bool{true, false} {
+			a := &batchSquares{X: make([]frontend.Variable, nb), Y: make([]frontend.Variable, nb)}
+			for i := 0; i < nb; i++ {
+				a.X[i] = i + 2
+				a.Y[i] = (i + 2) * (i + 2)
+				if !valid {
+					a.Y[i] = (i+2)*(i+2) + 1
+				}
+			}
+			w, _ := frontend.NewWitness(a, q)
+			for _, nt := range []int{1, 4 * runtime.NumCPU(), 64 * runtime.NumCPU()} {
+				var obs *SolveObs
+				desc := c10Desc{"wide-level", fmt.Sprintf("%s, %d independent rows, valid=%v, nbTasks=%d (cores: %d)", t, nb, valid, nt, runtime.NumCPU())}
+				rep.Eval(desc.Detail, true)
+				ok := withWatchdog(60*time.Second, func() { obs = SolveCapture(ccs, w, nt) })
+				switch {
+				case !ok:
+					rep.Fail("c10:hang:wide-level:"+t.String(), "Solve does not return within 60 s: "+desc.Detail, desc)
+				case valid && obs.Class != "ok":
+					rep.Fail("c10:wide-level-rejects-valid:"+t.String(), obs.Class+" "+obs.Msg, desc)
+				case !valid && obs.Class == "ok":
+					rep.Fail("c10:wide-level-accepts-invalid:"+t.String(), "Solve succeeds on a witness violating every row", desc)
+				}
 			}
 		}
 	}
